@@ -1,10 +1,13 @@
 import CCVerif.Model.Json
+import CCVerif.Lemmas.JsonDoc
+import CCVerif.Lemmas.JsonDocTags
 /-!
 # C10 — saving and loading through JSON is lossless and stable
 
-Theorems about the codecs of JSON.cpp between in-memory values and JSON trees. The composite
-documents (RSForm, RSModel) are judged end-to-end on the implementation by the check's oracles;
-here: the leaf codecs they are built from.
+Theorems about the codecs of JSON.cpp between in-memory values and JSON trees.
+First part: the leaf codecs (`Model/Json.lean`). Second part (below): the composite documents of
+`RSForm` and `RSModel` (`Model/JsonDoc.lean`); the end-to-end oracles of the check (save, load,
+compare, save again on the implementation) stay in place next to them.
 -/
 namespace CCVerif.Json
 open CCVerif.Translation
@@ -154,3 +157,250 @@ example : (TrackingFlags.toJson { allowEdit := true }).dump =
     "{\"mutable\":true,\"editTerm\":false,\"editDefinition\":false,\"editConvention\":false}" := by decide
 
 end CCVerif.Json
+
+/-!
+# Document level (`Model/JsonDoc.lean`)
+
+`Schema` / `Model` are the abstract content of an `RSForm` / `RSModel` as the writer reads it;
+`toJson` / `fromJson env` transcribe `to_json` / `from_json`. `env` carries what the loader takes
+from elsewhere: the random uid source, the renaming translator, and the recomputation
+`UpdateState` (`env.analyse`, `env.typif`).
+
+**Observable** fields of a record (`Record.obs` erases the others): uid, kind, alias, convention,
+raw term, manual word forms, formal definition, raw text definition, tracking flags, position in
+the list. **Recomputed on load** (not observable through the document): resolved term / resolved
+definition text and the whole `parse` block. For a model additionally observable: calculated
+flag, structure data, text interpretation, statement value of every constituent; recomputed: the
+typification the data is packed against.
+
+Well-formedness the writer / loader pair relies on (`Schema.WF` = `ItemsWF`):
+* `LoadOK.uids`, `LoadOK.aliases`: uids and aliases pairwise distinct;
+* `LoadOK.names`: every alias is a kind letter followed by digits, of the constituent's kind
+  (otherwise `RegisterID` replaces it);
+* `LoadOK.order`: no basic kind (X, C, S) after a kind with a larger code — the order
+  `CstList::Insert` rebuilds;
+* `FormsWF`: manual forms carry canonical tag strings (`normTags t = t`), strictly ascending.
+`Model.WF` adds: no tracking; one data entry per constituent in ascending uid order; `EntryWF`
+per kind — in particular `Contiguous` keys of a text interpretation (recorded finding
+C10-text-keys), values compatible with their typification and free of the `unknownCount` marker
+(C16), base-set data = the keys of its texts.
+-/
+namespace CCVerif.JsonDoc
+open CCVerif.Json CCVerif.Core CCVerif.SDC
+
+/-- **schema_roundtrip**: for any recomputation, any uid source and any translator: a well-formed
+schema content, written and loaded, comes back with every observable field unchanged — same
+records in the same order. -/
+theorem schema_roundtrip (env : Env) (c : Schema) (h : c.WF) :
+    ∃ c', Schema.fromJson env c.toJson = some c' ∧ c'.obs = c.obs := by
+  refine ⟨_, schema_fromJson_toJson env c h, ?_⟩
+  simp [Schema.obs, reloaded_obs]
+
+/-- **schema_roundtrip_updated**: if moreover the content is in updated state for the loader's
+recomputation (`Updated`: running `UpdateState` on the reloaded records reproduces the stored
+resolved texts and parse blocks — C07's `analysis_equal` is the statement that the real
+`UpdateState` has this property on reachable schemas with acyclic term references), the loaded
+content is EQUAL to the original, recomputed fields included. -/
+theorem schema_roundtrip_updated (env : Env) (c : Schema) (h : c.WF) (hu : Updated env c.items) :
+    Schema.fromJson env c.toJson = some c := by
+  rw [schema_fromJson_toJson env c h, reloaded_updated env c.items hu]
+
+/-- **schema_stable**: the second document is identical to the first. -/
+theorem schema_stable (env : Env) (c : Schema) (h : c.WF) (hu : Updated env c.items) :
+    (Schema.fromJson env c.toJson).map Schema.toJson = some c.toJson := by
+  rw [schema_roundtrip_updated env c h hu]; rfl
+
+/-- **normTags_idempotent** (`NormIdem`): re-reading a written tag string gives the same
+morphology. -/
+theorem normTags_idempotent : NormIdem := normTags_idem
+
+/-- **schema_load_wf**: whatever document the loader accepts — optional keys missing, items in
+any order, repeated uids, taken / ill-formed / wrong-kind aliases, unknown or repeated tags,
+tracking of unknown uids — the loaded content is well-formed: the loader re-registers identifiers
+(`registerID_spec`, C09) and re-inserts by kind. (`RenameOK`: the translator applied for a
+replaced alias leaves uid, alias, kind and word forms alone.) -/
+theorem schema_load_wf (env : Env) (hren : RenameOK env) (d : Json) (c : Schema)
+    (h : Schema.fromJson env d = some c) : c.WF :=
+  schema_load_wf_of_normIdem env hren normTags_idem d c h
+
+/-- **schema_load_stable**: loading is a normal form — the content loaded from ANY accepted
+document survives a further save / load with all observable fields unchanged, and exactly when
+it is in updated state; its document is then a fixed point of load-then-save. -/
+theorem schema_load_stable (env : Env) (hren : RenameOK env) (d : Json) (c : Schema)
+    (h : Schema.fromJson env d = some c) :
+    (∃ c', Schema.fromJson env c.toJson = some c' ∧ c'.obs = c.obs) ∧
+    (Updated env c.items → (Schema.fromJson env c.toJson).map Schema.toJson = some c.toJson) :=
+  ⟨schema_roundtrip env c (schema_load_wf env hren d c h),
+   schema_stable env c (schema_load_wf env hren d c h)⟩
+
+/-- **model_roundtrip**: a well-formed model content in updated state is written (the packer's
+preconditions hold) and loaded back EQUAL: schema part, and for every constituent the calculated
+flag, the structure data (through `unpack_pack_partial`, C16), the text interpretation (through
+`text_roundtrip_partial`: `Contiguous` keys) and the statement value. -/
+theorem model_roundtrip (env : Env) (c : Model) (h : c.WF) (hu : ModelUpdated env c) :
+    ∃ j, c.toJson = some j ∧ Model.fromJson env j = some c :=
+  model_roundtrip_core text_roundtrip_partial env c h hu
+
+/-- **model_stable**: the second document of a model is identical to the first. -/
+theorem model_stable (env : Env) (c : Model) (h : c.WF) (hu : ModelUpdated env c) :
+    (c.toJson >>= Model.fromJson env >>= Model.toJson) = c.toJson := by
+  obtain ⟨j, h1, h2⟩ := model_roundtrip env c h hu
+  simp [h1, h2]
+
+/-- the full-strength statement for models — no condition on the keys of text interpretations:
+false, see `model_roundtrip_statement_false` -/
+def model_roundtrip_statement : Prop :=
+  ∀ (env : Env) (c : Model), c.WFk (fun _ => True) → ModelUpdated env c →
+    ∃ j, c.toJson = some j ∧ Model.fromJson env j = some c
+
+/-! ## satisfiability of the hypotheses, closed instances -/
+
+/-- `Updated` is satisfiable for every content with distinct uids (by the recomputation that
+answers with the stored fields) -/
+theorem updated_satisfiable (c : Schema) (h : c.WF) : Updated (envOf c.items []) c.items :=
+  updated_envOf _ _ h.load.uids
+
+theorem modelUpdated_satisfiable (c : Model) (h : c.WF) : ModelUpdated (envOf c.items c.data) c :=
+  modelUpdated_envOf c h
+
+instance (fs : List Form) : Decidable (FormsWF fs) := by unfold FormsWF; infer_instance
+
+/-- three constituents, non-ASCII texts, quotes and backslashes, two manual forms, tracking -/
+def exSchema : Schema :=
+  { title := "Схема \"тест\"", alias := "KS1", comment := "line1\nline2 \\ end",
+    items := [
+      { uid := 11, type := .base, alias := "X1", convention := "конвенция",
+        term := { raw := "множество людей", resolved := "множество людей" },
+        forms := [⟨"plur,gent", "множеств людей"⟩, ⟨"sing,datv", "множеству людей"⟩],
+        parse := { status := .verified, valueClass := .value, typification := "ℬ(X1)", syntaxTree := "[:==[X1]]" },
+        track := some { allowEdit := true, definition := true } },
+      { uid := 7, type := .structured, alias := "S1", formal := "ℬ(X1×X1)",
+        definition := { raw := "отношение на @{X1|plur,gent}", resolved := "отношение на множеств людей" },
+        parse := { status := .verified, valueClass := .value, typification := "ℬ(X1×X1)",
+                   syntaxTree := "[::=[S1][ℬ[×[X1][X1]]]]" } },
+      { uid := 23, type := .function, alias := "F1", formal := "[α∈ℬ(X1)] α∪bad(",
+        term := { raw := "q\"uote\\", resolved := "q\"uote\\" },
+        parse := { status := .incorrect, args := [] } } ] }
+
+example : normTags " sing , datv ,xxxx,sing" = "sing,datv" := by decide
+
+theorem exSchema_wf : exSchema.WF :=
+  ⟨by decide, ⟨by decide, by decide, by decide, by decide⟩⟩
+
+example : Schema.fromJson (envOf exSchema.items []) exSchema.toJson = some exSchema :=
+  schema_roundtrip_updated _ _ exSchema_wf (updated_satisfiable _ exSchema_wf)
+
+/-- the same by evaluation of the model, and the stability of the document -/
+example : Schema.fromJson (envOf exSchema.items []) exSchema.toJson = some exSchema := by decide
+example : (Schema.fromJson (envOf exSchema.items []) exSchema.toJson).map Schema.toJson = some exSchema.toJson :=
+  schema_stable _ _ exSchema_wf (updated_satisfiable _ exSchema_wf)
+
+/-- a document the writer never produces: items out of kind order, optional keys missing, an
+ill-formed alias, unnormalised tags — loaded, saved, loaded: stable on the observable fields -/
+def exOddDoc : Json :=
+  .obj [("items", .arr [
+    .obj [("entityUID", .num 4), ("cstType", .str "term"), ("alias", .str "D1"),
+          ("term", .obj [("raw", .str "терм"), ("forms", .arr [
+            .obj [("text", .str "b"), ("tags", .str " sing , datv ")],
+            .obj [("text", .str "a"), ("tags", .str "plur,gent,zzzz")],
+            .obj [("text", .str "c"), ("tags", .str "datv,sing")]])])],
+    .obj [("entityUID", .num 4), ("cstType", .str "basic"), ("alias", .str "bad name")]])]
+
+def exOddEnv : Env := { envOf [] [] with fresh := fun ids => ids.foldl (· + ·) 1 }
+
+example : (Schema.fromJson exOddEnv exOddDoc).map (fun c => c.items.map fun r => (r.uid, r.alias, r.forms)) =
+    some [(5, "X1", []), (4, "D1", [⟨"plur,gent", "a"⟩, ⟨"sing,datv", "c"⟩])] := by decide
+
+example : ∃ c, Schema.fromJson exOddEnv exOddDoc = some c ∧ c.WF := by
+  cases h : Schema.fromJson exOddEnv exOddDoc with
+  | none => exact absurd h (by decide)
+  | some c => exact ⟨c, rfl, schema_load_wf exOddEnv (fun _ _ _ => ⟨rfl, rfl, rfl, rfl⟩) _ c h⟩
+
+def tyX1 : Ty := .coll (.base "X1")
+
+/-- a model: statement value, nested-empty structure data `{∅, {2}}`, a base set with two
+non-ASCII texts, a calculated term whose value is the empty set -/
+def exModel : Model :=
+  { title := "модель", alias := "M1",
+    items := [
+      { uid := 5, type := .base, alias := "X1", term := { raw := "люди", resolved := "люди" },
+        parse := { status := .verified, valueClass := .value, typification := "ℬ(X1)" } },
+      { uid := 3, type := .structured, alias := "S1", formal := "ℬ(ℬ(X1))",
+        parse := { status := .verified, valueClass := .value, typification := "ℬℬ(X1)" } },
+      { uid := 2, type := .ax, alias := "A1", formal := "1=1", parse := { status := .verified, valueClass := .value } },
+      { uid := 9, type := .term, alias := "D1", formal := "X1\\X1",
+        parse := { status := .verified, valueClass := .value, typification := "ℬ(X1)" } } ],
+    data := [
+      { uid := 2, wasCalc := true, stmt := some true },
+      { uid := 3, typif := some (.coll tyX1), sdata := some (.s [.s [], .s [.e 2]]) },
+      { uid := 5, typif := some tyX1, sdata := some (.s [.e 1, .e 2]), texts := some [(1, "один"), (2, "два")] },
+      { uid := 9, wasCalc := true, typif := some tyX1, sdata := some (.s []) } ] }
+
+theorem exModel_wf : exModel.WF := by
+  refine ⟨⟨by decide, ⟨by decide, by decide, by decide, by decide⟩⟩, by decide, by decide, ?_⟩
+  intro e he
+  simp only [exModel, List.mem_cons, List.not_mem_nil, or_false] at he
+  rcases he with rfl | rfl | rfl | rfl
+  · exact ⟨_, by simp [exModel]; right; right; left; rfl, rfl, by simp [EntryWFk, isBaseSet, isRSObject, isCallable]⟩
+  · refine ⟨_, by simp [exModel]; right; left; rfl, rfl, ?_⟩
+    simp [EntryWFk, isBaseSet, isRSObject, ValOK, tyX1]
+    decide
+  · refine ⟨_, by simp [exModel]; left; rfl, rfl, ?_⟩
+    simp [EntryWFk, isBaseSet, ValOK, keysSet, tyX1]
+    decide
+  · refine ⟨_, by simp [exModel]; right; right; right; rfl, rfl, ?_⟩
+    simp [EntryWFk, isBaseSet, isRSObject, ValOK, tyX1]
+    decide
+
+example : ∃ j, exModel.toJson = some j ∧ Model.fromJson (envOf exModel.items exModel.data) j = some exModel :=
+  model_roundtrip _ _ exModel_wf (modelUpdated_satisfiable _ exModel_wf)
+
+/-- the written `data` array of the example, evaluated -/
+example : (exModel.toJson.bind (·.get "data")).map Json.dump = some
+    ("[{\"entityUID\":2,\"wasCalculated\":true,\"value\":true}," ++
+     "{\"entityUID\":3,\"wasCalculated\":false,\"value\":[[2,0,0],[2,1,2]]}," ++
+     "{\"entityUID\":5,\"wasCalculated\":false,\"value\":[[2,1],[2,2]],\"texts\":[\"один\",\"два\"]}," ++
+     "{\"entityUID\":9,\"wasCalculated\":true,\"value\":[[0,0]]}]") := by decide +kernel
+
+/-! ## the recorded finding at the document level -/
+
+def gapModel : Model :=
+  { alias := "M1",
+    items := [{ uid := 5, type := .base, alias := "X1",
+                parse := { status := .verified, valueClass := .value, typification := "ℬ(X1)" } }],
+    data := [{ uid := 5, typif := some (.coll (.base "X1")), sdata := some (.s [.e 1, .e 3]),
+               texts := some [(1, "a"), (3, "c")] }] }
+
+/-- **model_roundtrip_counterexample** (recorded finding C10-text-keys): a base set interpreted
+by `{1 ↦ a, 3 ↦ c}` (everything in `Model.WF` except `Contiguous` holds; the model is in updated
+state for `envOf`) is reloaded as `{1 ↦ a, 2 ↦ c}` with the data set `{1, 2}`. -/
+theorem model_roundtrip_counterexample :
+    ((gapModel.toJson >>= Model.fromJson (envOf gapModel.items gapModel.data)).map fun c =>
+        c.data.map fun e => (e.texts, e.sdata.map (cmp · (.s [.e 1, .e 2])))) =
+      some [(some [(1, "a"), (2, "c")], some .equal)] ∧
+    ModelUpdated (envOf gapModel.items gapModel.data) gapModel := by
+  refine ⟨by decide, updated_envOf _ _ (by decide), ?_⟩
+  intro e he
+  simp only [gapModel, List.mem_singleton] at he
+  subst he
+  rfl
+
+theorem gapModel_wf : gapModel.WFk (fun _ => True) := by
+  refine ⟨⟨by decide, ⟨by decide, by decide, by decide, by decide⟩⟩, by decide, by decide, ?_⟩
+  intro e he
+  simp only [gapModel, List.mem_singleton] at he
+  subst he
+  refine ⟨_, List.mem_singleton.2 rfl, rfl, ?_⟩
+  simp [EntryWFk, isBaseSet, ValOK, keysSet]
+  decide
+
+theorem model_roundtrip_statement_false : ¬ model_roundtrip_statement := by
+  intro hall
+  obtain ⟨j, hj, h⟩ := hall _ gapModel gapModel_wf model_roundtrip_counterexample.2
+  have h1 := model_roundtrip_counterexample.1
+  rw [hj] at h1
+  simp only [Option.bind_eq_bind, Option.bind_some, h, Option.map_some] at h1
+  revert h1
+  decide
+
+end CCVerif.JsonDoc
